@@ -509,6 +509,71 @@ def eof_rule(P, chk):
         chk.fail(R_EOF, key, where, "this parser requires a newline (bare winnow line terminator, no eof alternative): a last line ended by end of file is rejected")
 
 
+
+R_NEUTRAL = "E7.format-context-neutral"
+
+
+def neutral_context_rule(P, chk):
+    """`format` (and `primitive flatten`) must print every number with the decimal places it was written with: the
+    DisplayContext they render with is the empty default one and nothing configures a precision on it (a configured
+    precision makes `rescale` pad the number - right for `import`, a change of meaning for `format`; seed C05-E)."""
+    DC = "okane_core::syntax::display::DisplayContext"
+    roots_fn = ["okane_core::format::FormatOptions::format", "okane::cmd::FlattenCmd::run"]
+    n_sites = 0
+    for key in roots_fn:
+        if P.maybe_body(key) is None:
+            chk.anchor_missing("%s not found" % key)
+            continue
+        for b in P.with_closures(key):
+            chk.analysed(b)
+            for bb, t in b.calls():
+                cd = callee_def(t) or ""
+                if not norm(cd).startswith(DC + "::"):
+                    continue
+                meth = cd.rsplit("::", 1)[-1]
+                if meth in ("default",):
+                    continue
+                recv = t["args"][0] if t["args"] else None
+                if meth != "as_display":
+                    chk.require(False, R_NEUTRAL, "%s|only as_display is called on the context" % key.rsplit("::", 2)[-2], b.loc(bb),
+                                "DisplayContext::%s is called while formatting: the context no longer is the neutral one" % meth,
+                                "DisplayContext::default() + as_display only")
+                    continue
+                n_sites += 1
+                rs = prov(b, recv)
+                hb = b
+                if rs and all(r.kind == "capture" and not r.fields for r in rs) and len(set(r.name for r in rs)) == 1:
+                    # the context is captured by the closure that prints: look at it where the closure was built
+                    for par in P.closure_parents(b):
+                        l_ = q.local_by_name(par, list(rs)[0].name, "")
+                        if l_ is not None:
+                            hb = par
+                            rs = prov(par, {"l": l_, "p": []})
+                            break
+                b_saved, b = b, hb
+                ok = bool(rs) and all(r.kind == "call" and norm(str(r.name)).endswith("DisplayContext as std::default::Default>::default") for r in rs)
+                # nothing else may get hold of the context (a `&mut ctx` handed to a helper, a field store)
+                others = []
+                if ok:
+                    srcs = set(r.site for r in rs)
+                    for bb2, t2 in b.calls():
+                        if bb2 == bb or bb2 in srcs:
+                            continue
+                        for a in t2["args"]:
+                            ra = prov(b, a)
+                            if ra and any(r.kind == "call" and r.site in srcs for r in ra) and not norm(callee_def(t2) or "").startswith(DC + "::as_display"):
+                                others.append(callee_def(t2))
+                    for i in sorted(b.live_blocks()):
+                        for st in b.blocks[i]["stmts"]:
+                            if st["k"] == "assign" and st["place"]["p"] and any(p_.get("adt") and norm(p_["adt"]) == DC for p_ in st["place"]["p"] if p_["k"] == "field"):
+                                others.append("store to a field of the context at %s" % b.loc(i))
+                b = b_saved
+                chk.require(ok and not others, R_NEUTRAL, "%s|renders with the neutral context" % key.rsplit("::", 2)[-2], b.loc(bb),
+                            "context is %s%s" % (sorted(mir.show_root(r) for r in rs), ("; also used by %s" % sorted(set(map(str, others)))) if others else ""),
+                            "receiver of as_display is DisplayContext::default(), untouched")
+    chk.floor("as_display call sites in format / flatten", n_sites, 2)
+
+
 def run(P, chk, tier):
     chk.rule(R_PRINT, "the printer reads every field and every variant payload of the syntax tree")
     chk.rule(R_PARSE, "every variant of the syntax enums is constructed by the parser (or is the declared default)")
@@ -520,3 +585,5 @@ def run(P, chk, tier):
     prefix_agreement(P, chk)
     wrap_rule(P, chk)
     eof_rule(P, chk)
+    chk.rule(R_NEUTRAL, "format / flatten render with the neutral display context: no precision is configured, numbers keep their decimal places")
+    neutral_context_rule(P, chk)
